@@ -14,6 +14,8 @@ Open Scope nat_scope.
 
 Section P.
 Variable p : prog.
+Variable par : nat -> option nat.
+Variable selw : nat -> bool.
 Hypothesis wfp : wf_prog p.
 Hypothesis nsf : no_self_feed p.
 
@@ -54,7 +56,7 @@ Proof.
 Qed.
 
 Theorem idle_converged : forall ops e,
-  wf_ops p ops -> let s := run_fixed p ops in
+  wf_ops p ops -> let s := run_fixed p par selw ops in
   ready s = [] -> effb p e = true ->
   ealive (getn s e) = true -> epoll (getn s e) = false -> emissed (getn s e) = false ->
   EffectConverged s e.
@@ -65,13 +67,13 @@ Qed.
 
 (* the same with "the case has not halted" instead of "the task is at rest" *)
 Theorem idle_converged_all : forall ops e,
-  wf_ops p ops -> let s := run_fixed p ops in
+  wf_ops p ops -> let s := run_fixed p par selw ops in
   ready s = [] -> halted s = false -> effb p e = true ->
   ealive (getn s e) = true -> emissed (getn s e) = false ->
   EffectConverged s e.
 Proof.
   intros ops e Hw s Hr Hh He Ha Hm. apply idle_converged; auto.
-  destruct (reachable_at_rest p wfp nsf ops Hw) as [H|H]; [unfold s in Hh; congruence|auto].
+  destruct (reachable_at_rest p par selw wfp nsf ops Hw) as [H|H]; [unfold s in Hh; congruence|auto].
 Qed.
 
 (* ---------------------------------------------------------------- C09: what the ghost means *)
@@ -100,20 +102,20 @@ End P.
 
 (* ---------------------------------------------------------------- outside the known class *)
 (* the same statements for every program that is not in the class of finding F-C02-d *)
-Theorem idle_converged_except_known : forall p, wf_prog p -> ~ self_feeding p ->
-  forall ops e, wf_ops p ops -> let s := run_fixed p ops in
+Theorem idle_converged_except_known : forall p par selw, wf_prog p -> ~ self_feeding p ->
+  forall ops e, wf_ops p ops -> let s := run_fixed p par selw ops in
   ready s = [] -> halted s = false -> effb p e = true ->
   ealive (getn s e) = true -> emissed (getn s e) = false ->
   EffectConverged p s e.
-Proof. intros p W H. apply idle_converged_all; auto. apply not_self_feeding; auto. Qed.
+Proof. intros p par selw W H. apply idle_converged_all; auto. apply not_self_feeding; auto. Qed.
 
-Theorem no_causeless_run_except_known : forall p, wf_prog p -> ~ self_feeding p ->
-  forall ops, wf_ops p ops -> nocause (run_fixed p ops) = 0.
-Proof. intros p W H. apply no_causeless_run; auto. apply not_self_feeding; auto. Qed.
+Theorem no_causeless_run_except_known : forall p par selw, wf_prog p -> ~ self_feeding p ->
+  forall ops, wf_ops p ops -> nocause (run_fixed p par selw ops) = 0.
+Proof. intros p par selw W H. apply no_causeless_run; auto. apply not_self_feeding; auto. Qed.
 
-Theorem reachable_inv_except_known : forall p, wf_prog p -> ~ self_feeding p ->
-  forall ops, wf_ops p ops -> Inv0 p (run_fixed p ops).
-Proof. intros p W H. apply reachable_inv; auto. apply not_self_feeding; auto. Qed.
+Theorem reachable_inv_except_known : forall p par selw, wf_prog p -> ~ self_feeding p ->
+  forall ops, wf_ops p ops -> Inv0 p (run_fixed p par selw ops).
+Proof. intros p par selw W H. apply reachable_inv; auto. apply not_self_feeding; auto. Qed.
 
 (* ---------------------------------------------------------------- witnesses on the pre-fix variants *)
 Open Scope Z_scope.
@@ -133,28 +135,28 @@ Definition last_log (s : state) (e : nat) : list (nat * Z * bool) := rlog (getn 
 
 (* before the fix the effect's last run still shows m2 = 2 while m2 is 4 *)
 Example lost_update_prefix_refuted :
-  let s := run_prefix_c p_lost ops_c in
+  let s := run_prefix_c p_lost no_par no_sel ops_c in
   ready s = [] /\ last_log s 3%nat = [(2%nat, 1, true); (1%nat, 2, true)] /\ cache (getn (fst (read_top p_lost 1%nat s)) 1%nat) = Some 4.
 Proof. vm_compute. auto. Qed.
 (* after the fix it re-ran *)
 Example lost_update_fixed :
-  let s := run_fixed p_lost ops_c in
+  let s := run_flat p_lost ops_c in
   ready s = [] /\ last_log s 3%nat = [(2%nat, 1, true); (1%nat, 4, true)].
 Proof. vm_compute. auto. Qed.
 
 (* before the fix one write runs the effect twice: one invocation without a cause *)
-Example double_run_prefix_refuted : nocause (run_prefix_c p_twice ops_c) = 1%nat.
+Example double_run_prefix_refuted : nocause (run_prefix_c p_twice no_par no_sel ops_c) = 1%nat.
 Proof. vm_compute. reflexivity. Qed.
-Example double_run_fixed : nocause (run_fixed p_twice ops_c) = 0%nat.
+Example double_run_fixed : nocause (run_flat p_twice ops_c) = 0%nat.
 Proof. vm_compute. reflexivity. Qed.
 
 (* before the fix the paused effect is unsubscribed for good: the write after resume is lost *)
 Example resume_prefix_refuted :
-  let s := run_prefix_a p_take ops_a in
+  let s := run_prefix_a p_take no_par no_sel ops_a in
   ready s = [] /\ last_log s 1%nat = [(0%nat, 1, true)] /\ sval (getn s 0%nat) = 3.
 Proof. vm_compute. auto. Qed.
 Example resume_fixed :
-  let s := run_fixed p_take ops_a in
+  let s := run_flat p_take ops_a in
   ready s = [] /\ last_log s 1%nat = [(0%nat, 3, true)].
 Proof. vm_compute. auto. Qed.
 
@@ -164,7 +166,7 @@ Definition p_self : prog :=
   [DSig false 1; DMemo CNe (Rd 0%nat); DMemo CNe (Rd 1%nat);
    DEff EEffect (Add (Rd 1%nat) (Add (Ite (Lt (Rd 1%nat) (Const 5)) (Wr 0%nat (Const 5)) (Const 0)) (Rd 2%nat))) (Const 0)].
 Example self_feeding_refuted :
-  let s := run_fixed p_self [ORead 2%nat; ORun] in
+  let s := run_flat p_self [ORead 2%nat; ORun] in
   ready s = [] /\ last_log s 3%nat = [(1%nat, 1, true); (1%nat, 1, true); (2%nat, 5, true)] /\
   cache (getn s 1%nat) = Some 5.
 Proof. vm_compute. auto. Qed.
@@ -225,7 +227,7 @@ Proof.
   - repeat constructor.
 Qed.
 Example relay_converges :
-  let s := run_fixed p_relay ops_relay in
+  let s := run_flat p_relay ops_relay in
   ready s = [] /\ halted s = false /\ sval (getn s 1%nat) = 6 /\
   last_log s 4%nat = [(3%nat, 12, true)] /\ last_log s 2%nat = [(0%nat, 5, true)].
 Proof. vm_compute. auto. Qed.
